@@ -166,6 +166,13 @@ def bounded(e: ast.AST, bits: int, env: dict[str, ast.AST]) -> tuple[bool, str]:
         l_, r_ = int_const(e.left, consts), int_const(e.right, consts)
         e = ast.BinOp(left=e.left if l_ is None else ast.Constant(value=l_), op=e.op,
                       right=e.right if r_ is None else ast.Constant(value=r_))
+    if isinstance(e, ast.Subscript) and isinstance(e.value, ast.Name) and e.value.id in consts \
+            and isinstance(consts[e.value.id], (ast.Tuple, ast.List)) and consts[e.value.id].elts:
+        # TABLE[i] over a module-level tuple: one of its members
+        res = [bounded(x, bits, env) for x in consts[e.value.id].elts]
+        if all(r[0] for r in res):
+            return True, f'member of {e.value.id}: ' + '; '.join(sorted({r[1] for r in res}))
+        return False, f'`{norm(e)}`: a member of {e.value.id} has no bound'
     if isinstance(e, ast.Constant):
         if isinstance(e.value, bool) or (isinstance(e.value, int) and 0 <= e.value < (1 << bits)):
             return True, 'constant'
